@@ -27,6 +27,7 @@ def run(repo, tier):
     r.rule("R6.2", "StableHLO printer: operand loops run over expr.operands in order; comparison direction is derived from the kind", floor=5)
     r.rule("R6.3", "StableHLO printer: a $ref is bound exactly once, before it is referenced; arguments are bound before the body", floor=3)
     r.rule("R6.4", "constants: named constants denote their names; the like operand is a bound $ref/variable or a printed sub-tree", floor=8)
+    r.rule("R6.7", "StableHLO printer: every argument is declared with the element class selected by that argument's own is_complex", floor=2)
     r.rule("R6.5", "no name derived from process-global state reaches the emitted text", floor=1)
     r.rule("R6.6", "the XLA client printer and its C++ constant printer share one statement list and one set of bound names for the whole function", floor=3)
 
@@ -175,6 +176,59 @@ def run(repo, tier):
         ok = i_add is not None and i_body is not None and i_add < i_body
         r.ob("R6.3", "targets/stablehlo.py::Printer.tostring arguments bound before body", ok, "function body printed before argument $refs are bound", loc(S.rel, f))
         break
+    # R6.7 argument declarations: `<element class>:$<argument>` pairs the class of an argument with the same argument
+    n_decl = 0
+    for js in ast.walk(f):
+        if not isinstance(js, ast.JoinedStr):
+            continue
+        vals = js.values
+        for i in range(1, len(vals) - 1):
+            if isinstance(vals[i], ast.Constant) and str(vals[i].value) == ":$" and isinstance(vals[i - 1], ast.FormattedValue) and isinstance(vals[i + 1], ast.FormattedValue):
+                refv, clsv = vals[i + 1].value, vals[i - 1].value
+                if not (isinstance(refv, ast.Attribute) and refv.attr == "ref" and isinstance(refv.value, ast.Name)):
+                    continue
+                V = refv.value.id
+                cls_expr = clsv
+                if isinstance(clsv, ast.Name):
+                    defs = [st for st in ast.walk(f) if isinstance(st, ast.Assign) and any(isinstance(t, ast.Name) and t.id == clsv.id for t in st.targets)]
+                    if len(defs) != 1:
+                        raise AnalysisError(f"stablehlo.Printer.tostring: element class `{clsv.id}` has {len(defs)} definitions")
+                    cls_expr = defs[0].value
+                if not isinstance(cls_expr, ast.IfExp):
+                    raise AnalysisError(f"stablehlo.Printer.tostring: element class `{norm_src(cls_expr)}` is not a conditional expression on is_complex")
+                n_decl += 1
+                t = cls_expr.test
+                neg = False
+                if isinstance(t, ast.UnaryOp) and isinstance(t.op, ast.Not):
+                    t, neg = t.operand, True
+                subj = t.value if isinstance(t, ast.Attribute) and t.attr == "is_complex" else None
+                same = isinstance(subj, ast.Name) and subj.id == V
+                # the class must be chosen where V denotes the argument being declared: inside the loop / comprehension binding V
+                def _binder(n):
+                    while n is not None and n is not f:
+                        par = getattr(n, "_parent", None)
+                        if isinstance(par, (ast.For,)) and isinstance(par.target, ast.Name) and par.target.id == V:
+                            return par
+                        if isinstance(par, (ast.GeneratorExp, ast.ListComp)) and any(isinstance(g_.target, ast.Name) and g_.target.id == V for g_ in par.generators):
+                            return par
+                        n = par
+                    return None
+                b1, b2 = _binder(js), _binder(cls_expr)
+                same_scope = b1 is not None and b1 is b2
+                r.ob("R6.7", "targets/stablehlo.py::Printer.tostring argument element class is the argument's own", same and same_scope,
+                     f"`{norm_src(js)}` declares `${V}.ref` with the element class chosen by `{norm_src(cls_expr.test)}`"
+                     + ("" if same else f", which is not `{V}.is_complex`")
+                     + ("" if same_scope or not same else f", evaluated outside the loop that binds `{V}`")
+                     + ": an argument whose complexness differs from that one is declared with the wrong element type constraint",
+                     loc(S.rel, js))
+                a, b = ev(cls_expr.body), ev(cls_expr.orelse)
+                if neg:
+                    a, b = b, a
+                r.ob("R6.7", "targets/stablehlo.py::Printer.tostring element class names", (a, b) == ("ComplexElementType", "NonComplexElementType"),
+                     f"a complex argument is declared `{a}` and a real one `{b}`", loc(S.rel, cls_expr))
+    if n_decl == 0:
+        raise AnalysisError("stablehlo.Printer.tostring: the argument declaration `<element class>:$<ref>` was not found")
+
     # R6.4 like operand of a constant: the short `$like.ref` form only under `like.ref in self.defined_refs`
     n_like = 0
     # the like operand is the second component of the constant's operands
